@@ -19,6 +19,7 @@ progress depends on the environment are outside: `reliable_write` retrying a 0-b
 queue waits of the reader threads (C19), and expat / zlib / libbz2 internal loops.
 -/
 import Osmium.Lemmas.HostileLayout
+import Osmium.Lemmas.HostileGuards
 
 namespace Osmium.HostileLayout.C03
 
@@ -140,6 +141,21 @@ theorem builders_traverse_complete (fill : UInt8) (o : ObjS) (g : Guards fill o)
     ∃ fields, decodeAll (build fill o) = .ok [.mk o.kind.ty false fields [o.user] (o.subs.map subTree)] :=
   decodeAll_build fill o g
 
+/-- … wherever the buffer has to grow or move while the builders run: for every initial capacity
+    and both auto-grow modes (`yes`: reallocation, `internal`: the parsers' mode — committed items are
+    handed over in a nested buffer and the open item moves to fresh memory), the script of builder
+    calls for an object that satisfies `Guards` runs to its end and commits exactly `build fill o`
+    (C04's bridge, `Lemmas/BufBridge.lean: run_script`), which is well-formed.  This is the model-level
+    statement behind the small-buffer streams of the hostile tier (parser buffers starting at 64 … 200
+    bytes must deliver the same objects as the 64 KiB / 1 MiB ones). -/
+theorem guarded_script_commits_wf (o : ObjS) (fill : UInt8) (g : Guards fill o) (hf : o.fixed = ctorFixed o.kind)
+    (c c1 : Nat) (m m1 : Buf.Mode) (hm : m ≠ .no) :
+    (Buf.run (Buf.St.init c m c1 m1 fill true) (script o)).dead = none ∧
+    (Buf.run (Buf.St.init c m c1 m1 fill true) (script o)).b0.done = build fill o ∧
+    WF (Buf.run (Buf.St.init c m c1 m1 fill true) (script o)).b0.done = true := by
+  obtain ⟨h1, h2⟩ := guards_script_commits o fill g hf c c1 m m1 hm
+  exact ⟨h1, h2, h2 ▸ (guards_wf fill o g).1⟩
+
 /-- non-vacuity: a changeset with a 8-byte user name, a discussion with two complete comments and a
     tag list satisfies `Guards` -/
 def exampleOk : ObjS :=
@@ -147,6 +163,7 @@ def exampleOk : ObjS :=
     subs := [.discussion [⟨1, 2, [117], some [116, 116]⟩, ⟨3, 4, [], some []⟩], .tags [([107], [118])]] }
 
 example : Guards 190 exampleOk := by decide
+example : exampleOk.fixed = ctorFixed exampleOk.kind := rfl
 example : ¬ Guards 0 witnessNulKey := by decide
 example : Guards 0 witnessNoText := by decide
 example : ¬ Guards 0 witnessNoTextMiddle := by decide
